@@ -16,8 +16,22 @@ Fixpoint applied_graph (e : expr) (a t sl : nat) (gens : list (list term)) (trai
         :: applied_graph e a t sl gens trained_so_far r
   end.
 
+(* every training action replayed on the training graph: evaluated with the accessor holding the OBSERVED previous generation
+   (the latest one at that point) it must train, for the persistent groups in pipeline order, the OBSERVED next generation *)
+Fixpoint trained_graph (e : expr) (a t sl : nat) (gens : list (list term)) (trained_so_far : nat) (h : list action) : bool :=
+  match h with
+  | [] => true
+  | DoApply _ :: r => trained_graph e a t sl gens trained_so_far r
+  | DoTrain :: r =>
+      let gids := pers_gids e (gsource a t sl) in
+      let prev := match trained_so_far with 0 => [] | S j => nth j gens [] end in
+      let ev := geval (Some (combine gids prev)) (gnodes (build e (gsource a t sl))) in
+      terms_eqb (map (fun g => match lookup_gid g (trained ev) with Some s => s | None => TNone end) gids) (nth trained_so_far gens [])
+      && trained_graph e a t sl gens (S trained_so_far) r
+  end.
+
 Definition check_case_graph (c : C04.case) : bool :=
   C04.check_case c &&
   match c with
-  | CHistory a t sl e h gens applied => terms_eqb (applied_graph e a t sl gens 0 h) applied
+  | CHistory a t sl e h gens applied => terms_eqb (applied_graph e a t sl gens 0 h) applied && trained_graph e a t sl gens 0 h
   end.
